@@ -153,7 +153,7 @@ class GeneralConfig:
         :return: the value
         """
         try:
-            return self._config[key]
+            value = self._config[key]
         except KeyError:
             return self.defaults[key]
         except TypeError:
@@ -162,6 +162,13 @@ class GeneralConfig:
                 # e.g. 'lazy_number_validation' in frappy.datatypes
                 return self.defaults[key]
             raise TypeError('generalConfig.init() has to be called first') from None
+        default = self.defaults.get(key)
+        if isinstance(value, str) and isinstance(default, (bool, int, float)):
+            # the values read from the config file are strings: 'False' must not count as true
+            if isinstance(default, bool):
+                return value.strip().lower() in ('1', 'true', 'yes', 'on')
+            return type(default)(value)
+        return value
 
     def get(self, key, default=None):
         """access for keys not known to exist"""
